@@ -11,7 +11,7 @@ from mc import core
 from mc.coma import (AlignmentSegment, EmptyAlignmentSegment, ScoredAlignedPair, AlignedPair, PositionWithSiteId as P, Peak,
                      SegmentChainer, SequentialityScorer)
 
-RULE = ("every subset (size bound) of a 14-descriptor segment pool, every input permutation for small subsets, 0-2 empty "
+RULE = ("every subset (size bound) of a 19-descriptor segment pool, every input permutation for small subsets, 0-2 empty "
         "segments added, x strands x 2 join-score variants x 3 multipliers; oracle = brute force over ALL subsets in key order; "
         "non-trivial = optimum uses >= 2 segments and differs from 'take all' and from 'take the best single one'; distinct by "
         "(strand, variant, multiplier, subset)")
@@ -23,23 +23,26 @@ NQ = 60
 # (reference start, length, diagonal offset, score)
 POOL = [(100, 20, 0, 100), (120, 20, 0, 250), (130, 40, 0, 100), (150, 20, 10, 100), (110, 20, -10, 250), (180, 20, 0, 100),
         (180, 0, 30, 100), (200, 40, 10, 250), (140, 20, 0, 100), (160, 40, -30, 100), (230, 20, 0, 100), (100, 40, 10, 250),
-        (120, 20, 0, 100), (140, 0, 0, 250)]
+        (120, 20, 0, 100), (140, 0, 0, 250),
+        # locally stretched segments: 5th element = query length (shorter on the reference but longer on the query, and vice versa)
+        (150, 20, 0, 250, 40), (160, 40, -10, 100, 20), (190, 20, 10, 100, 30), (100, 20, 0, 250, 40), (130, 40, -10, 100, 20)]
 
 
 def seg(desc, rev):
-    rs, ln, off, score = desc
+    rs, ln, off, score = desc[:4]
+    r0, r1, q0, q1 = geom(desc)
 
-    def pr(r, sc):
-        qp = r - 100 + off
+    def pr(r, qp, sc):
         qs = qp // 10 + 1 if not rev else NQ - qp // 10
         return ScoredAlignedPair(AlignedPair(P(r // 10 + 1, r), P(qs, qp)), sc)
-    pos = [pr(rs, score / 2), pr(rs + ln, score / 2)] if ln else [pr(rs, score)]
+    pos = [pr(r0, q0, score / 2), pr(r1, q1, score / 2)] if ln else [pr(r0, q0, score)]
     return AlignmentSegment(pos, score, Peak(100 - off, 1), pos)
 
 
 def geom(desc):
-    rs, ln, off, score = desc
-    return rs, rs + ln, rs - 100 + off, rs + ln - 100 + off     # r0, r1, q0, q1 (mirrored query coordinates ascend on both strands)
+    rs, ln, off, score = desc[:4]
+    qlen = desc[4] if len(desc) > 4 else ln
+    return rs, rs + ln, rs - 100 + off, rs - 100 + off + qlen     # r0, r1, q0, q1 (mirrored query coordinates ascend on both strands)
 
 
 def key_of(desc):
